@@ -76,6 +76,7 @@ struct PipeWorld : World {
 			else { op.kind = OP_RPEEK; op.a = r.range(0, 64); }
 			p.ops.push_back(op);
 		}
+		p.set("cxxq", r.chance(1, 4));   // layer Q: writer side through the C++ encode_queue methods (push, trim)
 		if (r.chance(1, 3)) {
 			// layer S: same schedule, streams on simulated descriptors; reader loads by polling
 			p.set("layer", 1);
@@ -89,6 +90,7 @@ struct PipeWorld : World {
 				if (iof && op.kind == OP_RPOLL && r.chance(1, 3)) { op.fault = (int) r.range(FL_SHORT, FL_EINTR); op.fa = r.range(1, 9); }
 			}
 		}
+		if (r.chance(1, 10)) { p.set("layer", 2); static const int mcaps[] = {8, 40, 130, 300, 700, 4096}; p.set("memcap", r.pick(mcaps)); }   // layer M: streams over a fixed memory area
 		if (r.chance(1, 4) && !p.ops.empty()) {
 			// the writer gives up a message it has begun (push(1, NULL)): nothing of it may reach the reader
 			for (int n = (int) r.range(1, 3); n > 0; --n) { Op c; c.kind = OP_WABORT; p.ops.insert(p.ops.begin() + r.below(p.ops.size()), c); }
@@ -206,7 +208,7 @@ struct PipeWorld : World {
 	}
 
 	void exec(const Plan &p, Log &log, Stats &st) override {
-		if (p.get("layer")) exec_stream(p, log, st); else exec_queue(p, log, st);
+		if (p.get("layer") == 2) exec_memory(p, log, st); else if (p.get("layer")) exec_stream(p, log, st); else exec_queue(p, log, st);
 		if (ledger_live()) fail("leak", "%zu block(s) still allocated after the run: %s", ledger_live(), ledger_describe().c_str());
 	}
 	void exec_queue(const Plan &p, Log &log, Stats &st) {
@@ -214,7 +216,7 @@ struct PipeWorld : World {
 		R.framing = (int) p.get("framing") & 3;
 		R.msgs = p.blobs;
 		if (R.msgs.size() > 12) R.msgs.resize(12);
-		const bool egrow = p.get("egrow") != 0;
+		const bool egrow = p.get("egrow") != 0, cxxq = p.get("cxxq") != 0;
 		size_t ecap = (size_t) std::min<int64_t>(std::max<int64_t>(p.get("ecap", 64), 4), 4096);
 		size_t dcap = (size_t) std::min<int64_t>(std::max<int64_t>(p.get("dcap", 64), 4), 4096);
 		encode_queue eq(encoder_for(R.framing));
@@ -239,7 +241,7 @@ struct PipeWorld : World {
 			Block src(k, 0); memcpy(src.p, m.data() + R.mpos, k);
 			bool lower_wrap = eq.off && eq._state.done < eq.max - eq.off && (eq.max - eq.off - eq._state.done) < eq._state.scratch;
 			ssize_t r; uint64_t fired = 0;
-			{ Sut s; SUT_GUARD_ABORT(r = mpt_queue_push(&eq, k, src.p)); }
+			{ Sut s; if (cxxq) { SUT_GUARD_ABORT(r = eq.push(k, src.p)); } else { SUT_GUARD_ABORT(r = mpt_queue_push(&eq, k, src.p)); } }
 			check_queue(eq, "encode");
 			if (eq.len != eq._state.done + eq._state.scratch) fail("queue-state", "after push: queue len %zu != done %zu + scratch %zu", eq.len, eq._state.done, eq._state.scratch);
 			if (r > (ssize_t) k) fail("consumed-too-much", "queue push consumed %zd of %zu", r, k);
@@ -280,9 +282,12 @@ struct PipeWorld : World {
 			Bytes buf(k);
 			int rc; { Sut s; rc = mpt_queue_get(&eq, 0, k, buf.data()); }
 			if (rc < 0) fail("queue-state", "cannot read %zu finished bytes from encode queue (len %zu)", k, eq.len);
+			if (cxxq) { bool ok; size_t d0 = eq._state.done; { Sut s; ok = eq.trim(k); } if (!ok || eq._state.done + k != d0) fail("queue-state", "encode_queue::trim(%zu) with %zu finished bytes -> %d, %zu finished bytes left", k, d0, (int) ok, eq._state.done); st.hit("probe:cxx_encode_queue"); }
+			else {
 			{ Sut s; rc = mpt_queue_crop(&eq, 0, k); }
 			if (rc < 0) fail("queue-state", "cannot crop %zu finished bytes from encode queue (len %zu)", k, eq.len);
 			eq._state.done -= k;
+			}
 			if (k > R.complete_bytes) { R.partial_sent = true; R.complete_bytes = 0; } else R.complete_bytes -= k;
 			check_queue(eq, "encode");
 			for (uint8_t b : buf) R.wire.push_back(b);
@@ -705,6 +710,63 @@ struct PipeWorld : World {
 		(void) eof_seen;
 		log.ev("END completed=%zu received=%zu crashed=%d now=%lld", R.completed.size(), R.received, (int) R.crashed, (long long) simio::S.now_ms);
 		}
+	}
+	// ---- layer M: a writer stream over a fixed memory area (no descriptor, no growth), then a reader stream over what was written
+	void exec_memory(const Plan &p, Log &log, Stats &st) {
+		Run R;
+		R.framing = (int) p.get("framing") & 3;
+		R.msgs = p.blobs; if (R.msgs.size() > 12) R.msgs.resize(12);
+		size_t cap = (size_t) std::min<int64_t>(std::max<int64_t>(p.get("memcap", 300), 1), 1 << 16);
+		Block area(cap, 0); memset(area.p, 0xEE, cap);
+		log.ev("pipe M framing=%s msgs=%zu area=%zu bytes", ref::framing_name(R.framing), R.msgs.size(), cap);
+		st.hit(std::string("framing:") + ref::framing_name(R.framing)); st.hit("layer:M");
+		size_t finished = 0;
+		{
+			stream ws; struct iovec ov; ov.iov_base = area.p; ov.iov_len = cap;
+			int rc; { Sut s; rc = mpt_stream_memory(&ws, 0, &ov); }
+			if (rc < 0) fail("setup", "mpt_stream_memory(write) failed %d", rc);
+			ws._wd._enc = encoder_for(R.framing);
+			auto step = [&](bool term, size_t k) -> ssize_t {
+				ssize_t r;
+				if (term) { { Sut s; SUT_GUARD_ABORT(r = mpt_stream_push(&ws, 0, 0)); } log.ev("W_TERM m%zu -> %zd done=%zu len=%zu", R.mi, r, ws._wd._state.done, ws._wd.len); if (r >= 0) { R.completed.push_back(R.mi); ++R.mi; R.mpos = 0; } }
+				else { const Bytes &m = R.msgs[R.mi]; Block src(k, 0); memcpy(src.p, m.data() + R.mpos, k); { Sut s; SUT_GUARD_ABORT(r = mpt_stream_push(&ws, k, src.p)); }
+					log.ev("W_PUSH m%zu %zu -> %zd done=%zu scratch=%zu len=%zu", R.mi, k, r, ws._wd._state.done, ws._wd._state.scratch, ws._wd.len); if (r > (ssize_t) k) fail("consumed-too-much", "stream push consumed %zd of %zu", r, k); if (r > 0) R.mpos += (size_t) r; }
+				if (ws._wd.base != area.p || ws._wd.max != cap) fail("queue-state", "memory stream left its area (base %p max %zu)", ws._wd.base, ws._wd.max);
+				if (ws._wd.len > cap || ws._wd._state.done + ws._wd._state.scratch != ws._wd.len) fail("queue-state", "memory stream: done=%zu scratch=%zu len=%zu area=%zu", ws._wd._state.done, ws._wd._state.scratch, ws._wd.len, cap);
+				return r;
+			};
+			bool full = false;
+			for (const Op &op : p.ops) {
+				if (full || R.mi >= R.msgs.size()) break;
+				if (op.kind == OP_WPUSH) { size_t k = std::min<size_t>((size_t) std::max<int64_t>(op.a, 1), R.msgs[R.mi].size() - R.mpos); if (!k) continue; st.hit("op:W_PUSH"); if (step(false, k) < 0) { full = true; st.hit("fault:area_full"); } }
+				else if (op.kind == OP_WTERM) { if (R.mpos < R.msgs[R.mi].size()) continue; st.hit("op:W_TERM"); if (step(true, 0) < 0) { full = true; st.hit("fault:area_full"); } }
+			}
+			// drain: the remaining messages as far as the area takes them
+			for (size_t guard = 0; !full && R.mi < R.msgs.size() && guard < 4096; ++guard) {
+				ssize_t r = R.mpos < R.msgs[R.mi].size() ? step(false, R.msgs[R.mi].size() - R.mpos) : step(true, 0);
+				if (r < 0 || (r == 0 && R.mpos < R.msgs[R.mi < R.msgs.size() ? R.mi : 0].size() && R.mi < R.msgs.size())) { full = true; st.hit("fault:area_full"); }
+			}
+			finished = ws._wd._state.done;
+			if (ws._wd.off) fail("queue-state", "memory stream moved its start to %zu", ws._wd.off);
+			ws._wd.base = 0; ws._wd.max = ws._wd.len = 0;       // the area belongs to the harness
+		}
+		// what is finished in the area is read back through a reader stream over exactly those bytes
+		{
+			Block in(finished, 0); if (finished) memcpy(in.p, area.p, finished);
+			stream rs; struct iovec iv; iv.iov_base = in.p; iv.iov_len = finished;
+			int rc; { Sut s; rc = mpt_stream_memory(&rs, &iv, 0); }
+			if (rc < 0) fail("setup", "mpt_stream_memory(read) failed %d", rc);
+			rs._rd._dec = decoder_for(R.framing);
+			Rx rx{this, &R, &log, &st, 0};
+			int last = 0;
+			for (int i = 0; i < 64; ++i) { size_t before = R.received; int d; { Sut s; SUT_GUARD_ABORT(d = mpt_stream_dispatch(&rs, on_message, &rx)); } check_pending(); log.ev("R_DISPATCH -> %d", d); last = d; if (d < 0 || (R.received == before && !(d & 0x10000))) break; }
+			check_pending();
+			// a fixed area has no room for a decoder that must expand what it reads (zero-pair framings): "needs space" is then an honest end
+			if (last == E_MissingBuffer && R.framing >= 2 && R.received < R.completed.size()) st.hit("probe:memory_reader_needs_space");
+			else if (R.received != R.completed.size()) fail("stall", "M %s: %zu messages were completed in the memory area (%zu finished bytes), %zu were read back", ref::framing_name(R.framing), R.completed.size(), finished, R.received);
+			rs._rd.base = 0; rs._rd.max = rs._rd.len = 0;
+		}
+		log.ev("END completed=%zu received=%zu", R.completed.size(), R.received);
 	}
 	template <class P, class D> void drain_reader(P &r_poll, D &r_dispatch) {
 		for (int i = 0; i < 64; ++i) {
